@@ -16,7 +16,7 @@ META = {
     ),
     "anchors": ["fermionic_core.tensordot_fermionic", "fermionic_core.resolve_combined_oddpos", "fermionic_local_operators.FermionicOperator.__lt__", "fermionic_core.FermionicArray.einsum", "fermionic_core.FermionicArray.transpose"],
     "floors": {
-        "quick": {"evaluations": 2500, "distinct_nontrivial": 150, "tables": {"networks": 300, "feature/odd>=2": 150, "feature/conjugated-tensor": 80, "feature/multi-label-operand": 40, "route/split-einsum": 150, "feature/bra-ket-label-pairs": 300, "feature/shared-legs>=6": 100}},
+        "quick": {"evaluations": 2500, "distinct_nontrivial": 150, "tables": {"networks": 300, "feature/odd>=2": 150, "feature/conjugated-tensor": 80, "feature/multi-label-operand": 40, "route/split-einsum": 150, "feature/bra-ket-label-pairs": 300, "feature/shared-legs>=6": 100, "feature/tensor-of-dense-size>=2**22": 6}},
         "thorough": {"evaluations": 150000, "distinct_nontrivial": 8000, "tables": {"networks": 10000, "feature/odd>=2": 5000}},
     },
     "wall": {"quick": 300, "thorough": 1700},
@@ -61,10 +61,13 @@ def braket_network(ctx, rng, sym, label_kind):
     return out
 
 
-def case(ctx, rng, braket=False, manylegs=False):
+def case(ctx, rng, braket=False, manylegs=False, hugedense=False):
     sr = ctx.sr
     sym = rng.choice(gen.SYMS5)
     nt = rng.choice([2, 3, 3, 4])
+    if hugedense:
+        sym = rng.choice(["Z2", "U1"])
+        nt = 2
     if manylegs:
         sym = rng.choice(["Z2", "Z2", "U1", "Z4", "Z2Z2"])
         nt = 2
@@ -75,6 +78,13 @@ def case(ctx, rng, braket=False, manylegs=False):
             tensors = braket_network(ctx, rng, sym, label_kind)
             nt = 0
             feats.add("bra-ket-label-pairs")
+        elif hugedense:
+            # one tensor of >= 2**22 dense elements (11-12 legs of total size 4) sharing 2-3 bonds
+            # with a small one: listed orders, operand swap, split tensordot + trace
+            cs_ = rng.sample(gen.POOL[sym], 2)
+            nb_ = rng.randint(2, 3)
+            tensors = network.build_network(ctx, rng, sym, 2, pbond=1.0, p_conj=0.0, label_kind=label_kind, multi=(nb_, nb_), dangs=[rng.choice([11, 12]) - nb_, rng.randint(0, 1)], mkindex=lambda: sr.BlockIndex({c: 2 for c in sorted(cs_)}, dual=rng.random() < 0.5), sparsity=0.0)
+            feats.add("tensor-of-dense-size>=2**22")
         elif manylegs:
             # two tensors sharing 6..8 size-one-sector bonds: contracted at once, in any listed
             # order, or some by tensordot and the rest by einsum trace
@@ -109,7 +119,7 @@ def case(ctx, rng, braket=False, manylegs=False):
     for f in feats:
         ctx.count("feature", f)
     wit = {"tensors": [dict(describe(t.x, True), legs=t.names) for t in tensors]}
-    nroutes = ctx.n(8, 16)
+    nroutes = ctx.n(8, 16) if not hugedense else 3
     history = []
     for r in range(nroutes):
         rec = []
@@ -163,5 +173,7 @@ def run(ctx):
         ctx.run_case(case, ctx, rng)
     for _, rng in ctx.cases("braket-networks", ctx.budget(8000, 150000)):
         ctx.run_case(case, ctx, rng, True)
+    for _, rng in ctx.cases("huge-dense", ctx.budget(12, 120)):
+        ctx.run_case(case, ctx, rng, False, False, True)
     for _, rng in ctx.cases("many-legs", ctx.budget(600, 12000)):
         ctx.run_case(case, ctx, rng, False, True)
